@@ -304,6 +304,25 @@ pub fn generate(thorough: bool, r: &mut Rng, em: &mut Emit) {
             em.case_nt("c07.decode", &[env_sx(&ee), tys_sx(&same), names_sx(&names), hm, "100000".into(), "2000".into()], true);
         }
     }
+    // the native entry points on the corpus: laws and reported cost, on messages with and without surplus arguments
+    {
+        let cfgn = GenCfg { max_depth: 2, refs: false, var_bias: 0 };
+        for name in crate::native::NAMES {
+            if crate::native::has_host_limits(name) { continue; }
+            let (env, t) = crate::native::types(name).unwrap();
+            for k in 0..(2 * scale as u32) {
+                let v = match gen_val(r, &env, &t, 3 + k % 3) { Some(v) => v, None => continue };
+                let mut ts = vec![t.clone()]; let mut vs = vec![v];
+                let surplus = r.below(3);
+                for _ in 0..surplus { let t2 = gen_type(r, &[], 2, &cfgn); if let Some(v2) = gen_val(r, &env, &t2, 4) { ts.push(t2); vs.push(v2); } }
+                let m = message(&env, &ts, &vs, 0);
+                let tn = name.replace(' ', "~");
+                em.stat(&format!("native.surplus-args.{}", ts.len() - 1));
+                em.case_nt("p.c07.api", &[tn.clone(), sx::hex(&m)], true);
+                em.case_nt("p.c07.native", &[tn, sx::hex(&m)], true);
+            }
+        }
+    }
     // vectors of zero-sized and primitive elements, big numbers: the fast paths and the "not free" rule
     let shapes: Vec<(T, Box<dyn Fn(usize) -> V>)> = vec![
         (T::p("null"), Box::new(|_| V::Null)),
